@@ -298,21 +298,22 @@ for _sy, _nm in enumerate(("runa", "runb", "byte", "eob")):
 
 # ------------------------------------------------------------------------------- block header stages of retrieve(): bitmap, counts, selectors
 HDR_ASM = ["execution cut at hooks VERIF_POINT(SELECTOR) (beyond the selector reachable with one input word), DELTA_DONE, HEADER_DONE",
-           "one 32-bit input word per step; z3 back end (the retriever state holds 8 KB / 32 KB arrays written at symbolic indices)"]
-add("bitmap_counts", "h_header.c", "h_bitmap_step", {"C05": "quick", "C06": "quick", "C07": "quick"}, witness=False, nowitness_reason="z3 needs minutes to produce a model for the witness twin of this query (timed out at 10 min); the main query is not vacuous by construction: its assumptions are plain range constraints on the inputs", cbmc=["--unwind", "18"], backend="z3", timeout=600, mem_gb=8, extra_src=["crctab.c"],
+           "one 32-bit input word per step; SCALED build: MAX_SELECTORS=40 (production 32767), SLIDE_LENGTH=512 (production 8192) so that the retriever state fits the SAT back end"]
+HDR_DEFS = ["-DVERIF_MAX_SELECTORS=40", "-DVERIF_SLIDE_LENGTH=512u"]
+add("bitmap_counts", "h_header.c", "h_bitmap_step", {"C05": "quick", "C06": "quick", "C07": "quick"}, defines=HDR_DEFS, cbmc=["--unwind", "18"], backend="kissat", timeout=600, mem_gb=8, extra_src=["crctab.c"],
     functions=["src/decode.c:retrieve (states S_BITMAP_SMALL .. S_SELECTOR_MTF)"],
     witnesses=["next_bucket_loaded", "empty_buckets_skipped", "bitmap_complete", "empty_alphabet", "bad_table_count", "no_selectors"],
     bounds="resume inside the symbol map at any of the 16 buckets with any map bits, any later bucket descriptor and any count of used values so far; one input word; "
            "after the last bucket: alphabet size, 3-bit table count, 15-bit selector count, first selector",
     assumptions=HDR_ASM, outside=["content of the inverse-MTF start list (see bitmap_content)"])
-add("bitmap_content", "h_header.c", "h_bitmap_step", {"C05": "thorough", "C06": "thorough"}, witness=False, nowitness_reason="the twin needs one z3 call per witness point and did not finish in 15 min; reachability of the same paths is shown by bitmap_counts", defines=["-DCONTENT", "-DCONTENT_ALPHA0=0"], cbmc=["--unwind", "18"], backend="z3", timeout=900, mem_gb=8, extra_src=["crctab.c"],
+add("bitmap_content", "h_header.c", "h_bitmap_step", {"C05": "quick", "C06": "quick"}, defines=HDR_DEFS + ["-DCONTENT", "-DCONTENT_ALPHA0=0"], cbmc=["--unwind", "18"], backend="kissat", timeout=900, mem_gb=8, extra_src=["crctab.c"],
     functions=["src/decode.c:retrieve (state S_BITMAP_SMALL)"], witnesses=["next_bucket_loaded"],
     bounds="one bucket (any of the first 15, any 16 map bits) processed from list position 0, next bucket non-empty: the used byte values are stored in increasing order",
     assumptions=HDR_ASM, outside=["list positions other than 0 at the start of the bucket (the store index is alpha_size, checked by bitmap_counts)"])
-add("selector_step", "h_header.c", "h_selector_step", {"C05": "quick", "C06": "quick", "C07": "quick"}, witness=False, nowitness_reason="z3 needs minutes to produce a model for the witness twin of this query (timed out at 10 min); the main query is not vacuous by construction: its assumptions are plain range constraints on the inputs", cbmc=["--unwind", "18"], backend="z3", timeout=300, mem_gb=8, extra_src=["crctab.c"],
+add("selector_step", "h_header.c", "h_selector_step", {"C05": "quick", "C06": "quick", "C07": "quick"}, defines=HDR_DEFS, cbmc=["--unwind", "18"], backend="kissat", timeout=300, mem_gb=8, extra_src=["crctab.c"],
     functions=["src/decode.c:retrieve (state S_SELECTOR_MTF)", "src/decode.c:table[] (first-zero table)"],
     witnesses=["selector_names_missing_table", "selector_stored", "longest_selector_code"],
-    bounds="one selector from any position of a list of 1..32767 selectors, 2..6 tables, any 32 input bits", assumptions=HDR_ASM)
+    bounds="one selector from any position of a list of 1..40 selectors (scaled), 2..6 tables, any 32 input bits", assumptions=HDR_ASM)
 
 # ===== keep this section LAST: it derives obligations from everything registered above =====
 # ------------------------------------------------------------------------------- C08: the same harnesses with CBMC's UB checks on
